@@ -41,6 +41,7 @@ class StateRule(S.SeqRule):
     """user: (states, errno_from_reason) ; states = frozenset of enumerator
     names the connection state may have, None = unknown"""
     max_depth = 4
+    memo_calls = True
 
     def __init__(self, prog, root, slot, all_states, r1, r2, privs_file):
         super().__init__(prog)
